@@ -40,6 +40,9 @@ for n in range(1, 11):
     SHAPES['(' + ', '.join(ps) + ',)'] = '[' + ', '.join('{' + p + '}' for p in ps) + ']'
 # which type arguments count as dependencies (the hasher of a map/set is not a type argument of the binding)
 NOT_A_DEP = {'H'}
+# type parameters that are not type arguments of the *binding* (the time zone of a DateTime never shows in its JSON)
+NOT_A_DEP_OF = {'DateTime<T>': {'T'}, 'Date<T>': {'T'}}
+PRIMS = set(NUM) | set(BIG) | set(STR) | {'bool', '()'}
 INLINE_PANICS_OK = {'Range<I>', 'RangeInclusive<I>'} | {k for k in SHAPES if k.startswith('(')}     # documented: cannot be inlined
 
 
@@ -274,7 +277,7 @@ def machine(ctx, params, rec, n_value=None):
     def visit(mm, callee, args):
         rec.log.append(('visit', re.search(r'::visit::<(.*)>$', callee).group(1)))
         return ()
-    m.stubs += [(rx, ts_method), (re.compile(r'^<impl TypeVisitor as TypeVisitor>::visit::<'), visit)]
+    m.stubs += [(rx, ts_method), (re.compile(r'^<impl (?:crate::)?TypeVisitor as (?:crate::)?TypeVisitor>::visit::<'), visit)]
     m.type_rewrites = [(re.compile(r'\$crate::'), 'crate::')]
     prev = m.const_hook
 
@@ -315,8 +318,10 @@ def explore(item):
     params = set(gens)
     tot = dict(paths=0, nontrivial=0, queries=0, solver_s=0.0)
     for meth in ('name', 'inline', 'visit_generics', 'visit_dependencies'):
+        if meth.startswith('visit') and self_ty == 'serde_json::Value':
+            continue        # shadows the derive-generated TsJsonValue: its dependency reporting is the derive's (C03/C11 macro half)
         if meth not in meths:
-            if meth in ('visit_generics', 'visit_dependencies') and not (params - NOT_A_DEP - {'N'}):
+            if meth in ('visit_generics', 'visit_dependencies') and not (params - NOT_A_DEP - NOT_A_DEP_OF.get(self_ty, set()) - {'N'}):
                 continue        # the trait default (visits nothing) is right for types without type arguments
             if meth == 'visit_dependencies' and (self_ty in INLINE_PANICS_OK or kind == 'impl_tuples'):
                 continue        # only reached through inline()/flatten, which this type does not support
@@ -359,18 +364,21 @@ def explore(item):
                         want = template('Array<{T}>', which) if n_conc > G['limit'] else \
                             [ord('[')] + sum(([Hole(f'T.{which}')] + ([ord(','), ord(' ')] if i + 1 < n_conc else []) for i in range(n_conc)), []) + [ord(']')]
                     else:
-                        want = template(shape, which)
+                        want = template(shape[which] if isinstance(shape, dict) else shape, which)
                     if k == 'panic':
                         if not (meth == 'inline' and (self_ty in INLINE_PANICS_OK or kind == 'impl_tuples')):
                             why = f'{meth}() panics: {r}'
                     elif list(r.cs) != want:
                         why = f'{meth}() = {show_rope(r.cs)!r}, serde\'s representation is {show_rope(want)!r}'
                 else:
-                    args_ = [g for g in gens if g not in NOT_A_DEP and g != 'N']
+                    args_ = [g for g in gens if g not in NOT_A_DEP and g != 'N' and g not in NOT_A_DEP_OF.get(self_ty, set())]
                     if k == 'panic':
                         why = f'{meth} panics: {r}'
                     elif meth == 'visit_generics':
                         visited = [t for op, t in log if op == 'visit']
+                        # a shadow over a concrete primitive (`Bytes` as Vec<u8>) visits that primitive: it has no file and cannot
+                        # become a dependency, so it does not count
+                        visited = [t for t in visited if t in params or t not in PRIMS]
                         fwd = [t for op, t in log if op == 'forward_visit_generics']
                         if sorted(visited) != sorted(args_) or sorted(fwd) != sorted(args_) or any(op == 'forward_visit_dependencies' for op, _ in log):
                             why = f'visit_generics visits {visited} and forwards {fwd}; the type arguments are {args_}'
@@ -401,6 +409,251 @@ def explore(item):
 
 def show_rope(cs):
     return ''.join(chr(c) if isinstance(c, int) else '{' + c.label + '}' for c in cs)
+
+
+# ------------------------------------------------------------------------------------------ feature-gated third-party impls
+FEATS = ('chrono-impl', 'bigdecimal-impl', 'uuid-impl', 'bson-uuid-impl', 'bytes-impl', 'url-impl', 'indexmap-impl', 'ordered-float-impl',
+         'heapless-impl', 'semver-impl', 'smol_str-impl', 'serde-json-impl', 'tokio-impl')
+# serde_json's representation of the third-party types (serde features of those crates enabled; checked natively on sample values)
+FSHAPES = {
+    'BigDecimal': 'string', 'SmolStr': 'string', 'uuid::Uuid': 'string', 'Url': 'string', 'OrderedFloat<f32>': 'number',
+    'OrderedFloat<f64>': 'number', 'bson::Uuid': 'string', 'semver::Version': 'string',
+    'bson::oid::ObjectId': '{ "$oid": string }',          # serde_json: {"$oid":"<hex>"} (bson's Serialize writes a one-field struct)
+    'NaiveDateTime': 'string', 'NaiveDate': 'string', 'NaiveTime': 'string', 'Month': 'string', 'Weekday': 'string',
+    'DateTime<T>': 'string', 'serde_json::Number': 'number',
+    'indexmap::IndexSet<T>': 'Array<{T}>', 'indexmap::IndexMap<K, V>': '{ [key in {K}]?: {V} }', 'heapless::Vec<T, N>': 'Array<{T}>',
+    'bytes::Bytes': 'Array<number>', 'bytes::BytesMut': 'Array<number>', 'serde_json::Map<K, V>': '{ [key in {K}]?: {V} }',
+    'serde_json::Value': {'name': 'JsonValue',      # a named, exported union: number | string | boolean | array | object | null
+                          'inline': 'number | string | boolean | Array<JsonValue> | { [key in string]?: JsonValue } | null'},
+}
+# impls for types that have no serde representation at all (nothing to compare with); their dependency reporting is still checked
+NO_SERDE = {'Duration', 'TimeDelta', 'Date<T>', 'Utc', 'Local', 'FixedOffset', 'Mutex<T>', 'OnceCell<T>', 'RwLock<T>', 'TsJsonValue'}
+MODULE_FILES = {'chrono': 'ts-rs/src/chrono.rs', 'serde_json': 'ts-rs/src/serde_json.rs', 'tokio': 'ts-rs/src/tokio.rs'}
+
+
+def split_inline_modules(src):
+    """lib.rs text -> (text without `mod name { .. }` blocks, {name: block text})"""
+    txt = re.sub(r'//[^\n]*', '', src)
+    mods = {}
+    while True:
+        mm = re.search(r'(?:#\[cfg\(feature = "[^"]+"\)\]\s*)?mod\s+(\w+)\s*\{', txt)
+        if not mm:
+            break
+        depth, j = 0, mm.end() - 1
+        while j < len(txt):
+            if txt[j] == '{':
+                depth += 1
+            elif txt[j] == '}':
+                depth -= 1
+                if depth == 0:
+                    break
+            j += 1
+        mods[mm.group(1)] = txt[mm.end():j]
+        txt = txt[:mm.start()] + txt[j + 1:]
+    return txt, mods
+
+
+def body_self_type(fn):
+    """the type X of the first `<X as TS>::name` call in a MIR body (impl_primitives bodies mention their own Self this way)"""
+    for stmts in fn.blocks.values():
+        for st in stmts:
+            if st and st[0] == 'call':
+                q = re.match(r'^<(.+) as (?:crate::|\$crate::)?TS>::name$', st[2])
+                if q:
+                    return q.group(1)
+    return None
+
+
+def feature_table(fns):
+    """impl table of the feature-gated impls only (self types as written in FSHAPES / NO_SERDE)"""
+    lib_src = open(os.path.join(REPO, LIB)).read()
+    top_txt, inline_mods = split_inline_modules(lib_src)
+    lines = lib_src.split('\n')
+    groups = {}
+    for k, f in fns.items():
+        m = re.match(r'^(?:(\w+)::)?<impl at (ts-rs/src/[\w/]+\.rs):(\d+):(\d+): (\d+):(\d+)>::(\w+)(#\d+)?$', k)
+        if m and hasattr(f, 'blocks'):
+            span = tuple(int(m.group(i)) for i in range(3, 7))
+            idx = int(m.group(8)[1:]) if m.group(8) else 0
+            groups.setdefault((m.group(1) or '', m.group(2), span, idx), {})[m.group(7)] = k
+    table = []
+    by_macro = {}
+    for (mod, file, span, idx), meths in sorted(groups.items()):
+        if file != LIB:
+            continue
+        mac = macro_of_line(lines, span[0] - 1)
+        if mac in ('impl_primitives', 'impl_wrapper', 'impl_shadow'):
+            by_macro.setdefault((mod, mac, span), []).append((idx, meths))
+    for (mod, mac, span_), lst in sorted(by_macro.items()):
+        lst.sort(key=lambda x_: x_[0])
+        if mod == '' and len(lst) == 1:
+            continue        # a direct impl that merely follows a macro definition in the file (default-feature impl: main table)
+        if mod == '':
+            inv_src = top_txt
+        elif mod in inline_mods:
+            inv_src = inline_mods[mod]
+        elif mod in MODULE_FILES:
+            inv_src = open(os.path.join(REPO, MODULE_FILES[mod])).read()
+        else:
+            raise Unsupported(f'impls in unknown module `{mod}`')
+        inv = invocations(inv_src, FEATS)
+        if mac == 'impl_primitives':
+            for idx, meths in lst:
+                src_fn = fns.get(meths.get('inline_flattened') or meths.get('decl'))
+                ty = body_self_type(src_fn) if src_fn is not None else None
+                if ty is None:
+                    raise Unsupported(f'cannot tell the self type of an impl_primitives expansion in `{mod or "crate"}`')
+                ty = re.sub(r'\b(?:std::num::)?NonZero<([ui])(\d+|size)>', lambda a: 'NonZero' + a.group(1).upper() + a.group(2), ty)
+                table.append((ty, [], meths, mac, None))
+        else:
+            src_list = inv.get(mac, [])
+            if len(src_list) != len(lst):
+                raise Unsupported(f'{mac} in `{mod or "crate"}`: {len(lst)} expansions in the MIR dump but {len(src_list)} invocations in the source')
+            for (idx, meths), ent in zip(lst, src_list):
+                table.append((ent[0], ent[1], meths, mac, ent[2] if len(ent) > 2 else None))
+    # direct impls of the module files (DateTime<T>, Date<T>, impl_dummy!, the derived TsJsonValue)
+    for (mod, file, span, idx), meths in sorted(groups.items()):
+        if file == LIB:
+            continue
+        flines = open(os.path.join(REPO, file)).read().split('\n')
+        hdr = ' '.join(' '.join(flines[span[0] - 1:span[2]]).split())
+        mm = re.match(r'^impl\s*(<(.*?)>)?\s*(?:crate::)?TS for (.*?)\s*(\{|where|$)', hdr[span[1] - 1:] if span[0] == span[2] else hdr)
+        if mm and '$' not in mm.group(3):
+            gens = [p_.split(':')[0].strip() for p_ in mirparse.split_top(mm.group(2))] if mm.group(2) else []
+            table.append((mm.group(3).strip(), [g for g in gens if not g.startswith("'")], meths, 'direct', None))
+        elif 'derive' in flines[span[0] - 1]:
+            nm = re.search(r'\b(?:enum|struct)\s+(\w+)', ' '.join(flines[span[0] - 1:span[0] + 12]))
+            if nm:
+                table.append((nm.group(1), [], meths, 'derived', None))
+        elif 'impl TS for $t' in hdr or '$t' in hdr:
+            # impl_dummy!(Utc, Local, FixedOffset): marker types, never bound themselves
+            names = re.search(r'impl_dummy!\((.*?)\)', open(os.path.join(REPO, file)).read())
+            ns = [x.strip() for x in names.group(1).split(',')] if names else []
+            if idx < len(ns):
+                table.append((ns[idx], [], meths, 'dummy', None))
+    return table
+
+
+def feature_part(rep):
+    """the same execution and oracle for the impls behind cargo features (every `*-impl` feature on)"""
+    saved = {k: G[k] for k in ('fns', 'impls')}
+    default_types = {t[0] for t in saved['impls']}
+    try:
+        fns = build.parsed(build.tsrs_mir(FEATS))
+        G['fns'] = fns
+        ftable = feature_table(fns)
+        dflt = impl_table_default_for(fns, ftable)
+        short = {d.split('::')[-1] for d in default_types}
+        extra = [t for t in ftable if t[0] not in default_types and t[0].split('::')[-1] not in short]
+        G['impls'] = dflt + extra
+        first = len(dflt)
+        for t in extra:
+            key = t[0]
+            sh = FSHAPES.get(key) or FSHAPES.get(key.split('::')[-1])
+            if sh:
+                SHAPES[key] = sh
+        todo = [i for i in range(first, len(G['impls'])) if G['impls'][i][0] not in NO_SERDE and G['impls'][i][3] not in ('dummy', 'derived')]
+        skipped = [G['impls'][i][0] for i in range(first, len(G['impls'])) if i not in todo]
+        results = par.pmap(explore, todo)
+        nat = native_feature_samples(rep)
+        for r in results:
+            for v in r.pop('violations', []):
+                conf = nat.get(v['impl']) if nat else None
+                v['serde_json_samples'] = conf
+                if v['impl'] == 'bson::oid::ObjectId' and v['method'] in ('name', 'inline'):
+                    if conf and all(js.startswith('{"$oid":') for js in conf):
+                        rep.known_hits.setdefault('F16-bson-objectid', v)
+                    else:
+                        rep.inconclusive.append(f'witness of F16 does not reproduce natively: {v}')
+                    continue
+                rep.violations.append({'what': f'impl TS for {v["impl"]} (feature-gated): {v["why"]}', 'witness': v, 'key': f'{v["impl"]}/{v["method"]}'})
+            r.pop('known_hits', None)
+            rep.absorb(r)
+        rep.part('feature-gated impls', impls=[G['impls'][i][0] for i in todo], not_serializable_or_markers=skipped, features=list(FEATS))
+        rep.configs.append('ts-rs: all `*-impl` features (chrono, bigdecimal, uuid, bson-uuid, bytes, url, indexmap, ordered-float, heapless, semver, smol_str, serde-json, tokio)')
+        rep.functions += [{'impl': G['impls'][i][0], 'kind': G['impls'][i][3], 'methods': sorted(G['impls'][i][2]), 'feature_gated': True} for i in todo]
+    finally:
+        G.update(saved)
+
+
+def impl_table_default_for(fns, ftable):
+    """the default-feature impls as they appear in the feature dump (needed as resolution targets for shadows: Vec<T>, HashMap<K, V>,
+    u8 ..).  Expansions of impl_primitives! are numbered differently there, so these are taken from the feature table, where each
+    expansion's self type is read off its own body; the other kinds keep their numbering (gated invocations come last in the source)."""
+    prim = {t[0].split('::')[-1]: t for t in ftable if t[3] == 'impl_primitives'}
+    out = []
+    for self_ty, gens, meths, kind, shadow in G['impls']:
+        if kind == 'impl_primitives':
+            t = prim.get(self_ty.split('::')[-1])
+            if t is None:
+                raise Unsupported(f'primitive impl {self_ty} not found in the feature dump')
+            out.append((self_ty, gens, t[2], kind, shadow))
+        else:
+            out.append((self_ty, gens, {m: k for m, k in meths.items() if k in fns}, kind, shadow))
+    return out
+
+
+def native_feature_samples(rep):
+    """serde_json output for sample values of the third-party types: validates FSHAPES (the trusted table) at every run"""
+    import tempfile, shutil
+    scratch = tempfile.mkdtemp(prefix='tsrs-verif-c12f-')
+    try:
+        os.makedirs(os.path.join(scratch, 'src'))
+        shutil.copy(os.path.join(REPO, 'Cargo.lock'), os.path.join(scratch, 'Cargo.lock'))
+        with open(os.path.join(scratch, 'Cargo.toml'), 'w') as fh:
+            fh.write('[package]\nname = "c12fprobe"\nversion = "0.0.0"\nedition = "2021"\n[workspace]\n[dependencies]\n'
+                     'serde = { version = "1", features = ["derive"] }\nserde_json = "1"\n'
+                     'chrono = { version = "0.4", features = ["serde"] }\nbigdecimal = { version = "0.4", features = ["serde"] }\n'
+                     'uuid = { version = "1", features = ["serde"] }\nbson = "2"\nbytes = { version = "1", features = ["serde"] }\n'
+                     'url = { version = "2", features = ["serde"] }\nsemver = { version = "1", features = ["serde"] }\n'
+                     'smol_str = { version = "0.3", features = ["serde"] }\nindexmap = { version = "2", features = ["serde"] }\n'
+                     'ordered-float = { version = "4", features = ["serde"] }\nheapless = { version = "0.8", features = ["serde"] }\n')
+        samples = [
+            ('BigDecimal', '"1.5".parse::<bigdecimal::BigDecimal>().unwrap()'), ('SmolStr', 'smol_str::SmolStr::new("s")'),
+            ('uuid::Uuid', 'uuid::Uuid::nil()'), ('Url', 'url::Url::parse("http://a/").unwrap()'),
+            ('OrderedFloat<f32>', 'ordered_float::OrderedFloat(1.5f32)'), ('OrderedFloat<f64>', 'ordered_float::OrderedFloat(1.5f64)'),
+            ('bson::oid::ObjectId', 'bson::oid::ObjectId::from_bytes([1; 12])'), ('bson::Uuid', 'bson::Uuid::from_bytes([1; 16])'),
+            ('semver::Version', 'semver::Version::new(1, 2, 3)'),
+            ('NaiveDateTime', 'chrono::NaiveDate::from_ymd_opt(2020, 1, 2).unwrap().and_hms_opt(3, 4, 5).unwrap()'),
+            ('NaiveDate', 'chrono::NaiveDate::from_ymd_opt(2020, 1, 2).unwrap()'), ('NaiveTime', 'chrono::NaiveTime::from_hms_opt(1, 2, 3).unwrap()'),
+            ('Month', 'chrono::Month::May'), ('Weekday', 'chrono::Weekday::Tue'),
+            ('DateTime<T>', 'chrono::DateTime::<chrono::Utc>::from_timestamp(0, 0).unwrap()'),
+            ('serde_json::Number', 'serde_json::Number::from(3)'),
+            ('indexmap::IndexSet<T>', '[1i32].into_iter().collect::<indexmap::IndexSet<i32>>()'),
+            ('indexmap::IndexMap<K, V>', '[("k".to_string(), 1i32)].into_iter().collect::<indexmap::IndexMap<String, i32>>()'),
+            ('heapless::Vec<T, N>', '{ let mut v: heapless::Vec<i32, 4> = heapless::Vec::new(); v.push(1).unwrap(); v }'),
+            ('bytes::Bytes', 'bytes::Bytes::from_static(b"ab")'), ('bytes::BytesMut', 'bytes::BytesMut::from(&b"ab"[..])'),
+            ('serde_json::Map<K, V>', '{ let mut m = serde_json::Map::new(); m.insert("k".into(), serde_json::json!(1)); m }'),
+        ]
+        body = ['fn main() {']
+        for key, expr in samples:
+            body.append(f'    println!("J\\t{{}}\\t{{}}", r#"{key}"#, serde_json::to_string(&({expr})).unwrap());')
+        body.append('}')
+        with open(os.path.join(scratch, 'src', 'main.rs'), 'w') as fh:
+            fh.write('\n'.join(body) + '\n')
+        p = build.run(['cargo', 'run', '--offline', '-q', '--target-dir', os.path.join(build.CACHE, 'target-c12fprobe')], cwd=scratch)
+        if p.returncode != 0:
+            rep.inconclusive.append('c12 feature probe failed to build/run: ' + p.stderr[-1500:])
+            return None
+        got = {}
+        for ln in p.stdout.split('\n'):
+            f = ln.split('\t')
+            if f[0] == 'J':
+                got.setdefault(f[1], []).append(f[2])
+    finally:
+        shutil.rmtree(scratch, ignore_errors=True)
+    # the table must accept each sample (a light structural test: JSON kind vs the table's outermost shape)
+    bad = 0
+    for key, lst in got.items():
+        shape = FSHAPES.get(key, '')
+        for js in lst:
+            kind = 'string' if js.startswith('"') else 'number' if re.fullmatch(r'-?[\d.eE+-]+', js) else 'array' if js.startswith('[') else 'object' if js.startswith('{') else '?'
+            want = 'string' if shape == 'string' else 'number' if shape == 'number' else 'array' if shape.startswith('Array<') else 'object' if shape.startswith('{') else '?'
+            if kind != want:
+                bad += 1
+                rep.inconclusive.append(f'shape table entry for {key} ({shape}) does not accept serde_json sample {js}')
+    rep.validated('third-party shape table vs serde_json on sample values', sum(len(v) for v in got.values()), bad)
+    return got
 
 
 # ------------------------------------------------------------------------------------------ native side
@@ -645,10 +898,14 @@ def main():
             if native_disagrees(w) is not False:
                 rep.known_hits.setdefault(fid, w)
         rep.absorb(r)
+    try:
+        feature_part(rep)
+    except (Unsupported, build.BuildError) as e:
+        rep.inconclusive.append(f'feature-gated impls: {e}')
     rep.bounds = {'impls': len(impls), 'type_arguments': 'abstract (universal): one execution per impl and method covers every instantiation; composition '
                   'to any depth follows from parametricity', 'array_length_N': f'0..={G["limit"] + 2} (solver variable, case split)', 'tuple_arity': '1..=10'}
-    rep.outside += ['feature-gated third-party impls (chrono, uuid, url, bytes, indexmap, heapless, semver, smol_str, bigdecimal, bson, '
-                    'ordered-float, serde_json, tokio): their crates are not enabled in this dump', 'values: the table speaks about shapes; '
+    rep.outside += ['third-party types without a serde representation (tokio locks, chrono::Duration / Date<Tz> / time-zone markers): only '
+                    'their dependency reporting could be checked and is not', 'the `format` feature', 'values: the table speaks about shapes; '
                     'number ranges (e.g. u64 beyond 2^53) are not modelled']
     rep.assumptions += ['the serde shape table (props/c12.py SHAPES) is the specification; it is checked against serde_json on sample values at every run',
                         'macro-made impls are paired with the macro invocations by order of appearance (checked by the native name() comparison)']
